@@ -24,7 +24,7 @@ RULE = ("one case = one NestedFrame (all label kinds incl. repeated, nested colu
 ASSUMPTIONS = ["what the function receives for a MISSING row's nested fields is not specified by the property: compared as 'no values'",
                "NaN and null are told apart through the numpy arrays handed to the function (object/float arrays)"]
 CORRESPONDENCE = "m_reduce_calls / m_count_nested (Frame.v) vs NestedFrame.reduce / count_nested"
-EXTRA_IMPORTS = "Frame Dtype Names Reduce2"
+EXTRA_IMPORTS = "Frame Dtype Names Reduce2 CountBy"
 
 
 def arr_tokens(a):
@@ -244,12 +244,29 @@ def generate(ctx):
                         want = sum(1 for rec in (r or []) if str(rec[j]) == val)
                         got = 0 if (v is None or v != v) else int(v)
                         assert got == want, f"count of {val!r} differs"
+                # the count table as (value heading the column, cells): for the Coq model CountBy.m_count_by
+                distinct = []
+                for r in rows:
+                    for rec in (r or []):
+                        if rec[j] is not None and not any(repr(rec[j]) == repr(d) for d in distinct):
+                            distinct.append(rec[j])
+                obs = []
+                for col in [c for c in out.columns if str(c).startswith("n_n_")]:
+                    val = str(col)[len("n_n_"):]
+                    match = [d for d in distinct if str(d) == val]
+                    assert len(match) == 1, f"count column {col!r} does not belong to exactly one value"
+                    cells = ["None" if (v is None or v != v) else f"(Some {int(v)})" for v in out[col].tolist()]
+                    obs.append(f"({cq_val(tok(match[0]))}, {cq_list(cells)})")
+                count_obs[0] = (j, cq_list(obs))
                 return [len(r or []) for r in rows]
+            count_obs = [None]
             res = attempt(run_c)
             unchanged = fo.snapshot(nf) == before
             impl = f"(Some {core.cq_nats(res[1])})" if res[0] == "ok" else "None"
-            term = (f"(let R := {fo.cq_nrows(rows)} in [match {impl} with Some l => list_eqb Nat.eqb (m_count_nested R) l | None => false end; "
-                    f"match {impl} with Some l => list_eqb Nat.eqb (map (fun r => length (recs r)) R) l | None => false end && {cq_bool(unchanged)}; true; true])")
+            cb = f"chk_count_by R {count_obs[0][0]} {count_obs[0][1]}" if (by is not None and count_obs[0] is not None) else "[true; true; true; true]"
+            term = (f"(let R := {fo.cq_nrows(rows)} in let CB := {cb} in "
+                    f"[match {impl} with Some l => list_eqb Nat.eqb (m_count_nested R) l | None => false end && nth 0 CB false; "
+                    f"match {impl} with Some l => list_eqb Nat.eqb (map (fun r => length (recs r)) R) l | None => false end && {cq_bool(unchanged)} && nth 1 CB false; true; true])")
             args = {"by": by, "join": join}
             nontrivial = any(rows)
         cases.append({
